@@ -2,7 +2,7 @@
 From Coq Require Import List ZArith Bool Lia.
 From Piko Require Import NodeLoss.Backoff.
 Import ListNotations.
-Open Scope Z_scope.
+Local Open Scope Z_scope.
 
 Ltac Zify.zify_post_hook ::= Z.div_mod_to_equations.
 
